@@ -131,8 +131,12 @@ fn resolve_foreign_keys(
             .or_else(|| {
                 let plural_path = plural_key_path(&value_path)?;
                 values.get_value_at(&locale, &plural_path)
-            })
-            .unwrap_at("resolve_foreign_keys_1");
+            });
+        // the path was registered while parsing: a later duplicate of one of its keys
+        // may have replaced the value it lived in, nothing is left to resolve then.
+        let Some(value) = value else {
+            continue;
+        };
         value.resolve_foreign_key(values, &locale, default_locale, extensions, &value_path)?;
     }
     Ok(())
